@@ -21,11 +21,14 @@ from pathlib import Path
 
 VERIF = Path(__file__).resolve().parent.parent
 REPO = Path(os.environ.get("HYDRODIY_REPO", "/repo"))
-COQ = VERIF / "coq"
+COQ = Path(os.environ.get("HYVERIF_COQ_DIR", str(VERIF / "coq")))
 PY = "/venv/bin/python"
 PYINC = "/root/.pyenv/versions/3.12.1/include/python3.12"
 NPINC = "/venv/lib/python3.12/site-packages/numpy/_core/include"
 NCPU = int(os.environ.get("VERIF_NCPU", "16"))
+# evaluation runs against a scratch tree (seeded changes) write their evidence / replays elsewhere
+EVIDENCE_DIR = Path(os.environ.get("HYVERIF_EVIDENCE_DIR", str(VERIF / "evidence")))
+REPLAY_DIR = Path(os.environ.get("HYVERIF_REPLAY_DIR", str(VERIF / "out" / "replays")))
 
 EXT_SOURCES = {
     "data": ["c_dateutils", "c_qualitycontrol", "c_dutils", "c_var2h", "c_baseflow"],
@@ -483,7 +486,7 @@ class Ctx:
             return True
         self._viol_keys.add(key)
         self.violation_count += 1
-        rdir = VERIF / "out" / "replays"
+        rdir = REPLAY_DIR
         rdir.mkdir(parents=True, exist_ok=True)
         safe = re.sub(r"[^A-Za-z0-9_.-]+", "_", key)[:80]
         path = rdir / f"{self.pid}_{safe}.json"
@@ -518,8 +521,8 @@ class Ctx:
               "level": "proof", "coverage": cov, "assumptions": self.assumptions,
               "wall_s": round(time.time() - self.t0, 2),
               "violations": self.violation_count}
-        (VERIF / "evidence").mkdir(exist_ok=True)
-        (VERIF / "evidence" / f"{self.pid}.json").write_text(
+        EVIDENCE_DIR.mkdir(parents=True, exist_ok=True)
+        (EVIDENCE_DIR / f"{self.pid}.json").write_text(
             json.dumps(ev, indent=1, default=str) + "\n")
         return 1 if self.violation_count else 0
 
